@@ -747,6 +747,7 @@ func runC05(r *harness.Run) {
 	pr.prop = "C05"
 	pr.runGens(map[string]Gen{"F-errval": genErrVal(th), "F-cooverflow": genCoOverflow(), "F-yieldacross": genYieldAcross(), "F-hostbody": genHostBody()}, []string{"F-errval", "F-cooverflow", "F-yieldacross", "F-hostbody"})
 	c05GoResume(r)
+	runPinned(r, "C05")
 }
 
 // c05GoResume — the Go-side Resume as a protected entry point: a coroutine that fails (error value
